@@ -12,3 +12,5 @@ if [ ! -x $V/bin/python ] || ! $V/bin/python -c "import z3, genlm.grammar" >/dev
     || PIP_NO_INDEX=1 $V/bin/python -m pip install -q --no-index --find-links /opt/veriftools/wheels z3-solver
 fi
 $V/bin/python -c "import z3, genlm.grammar; print('venv ok: z3', z3.get_version_string())"
+# oracle self-test (reference models vs brute force that shares no method with them); a disagreement fails the setup
+$V/bin/python -m vf.selftest 2>/dev/null
